@@ -4,7 +4,7 @@ HARNESS = ["fullrt/c16_test.go"]
 GO_TEST = "TestVerifC16"
 RUN_MODULE = "Run_C16"
 COQ_TARGETS = ["Corr/Run_C16.vo", "Proofs/FullRtProofs.vo", "Proofs/CrawlerProofs.vo"]
-N = {"quick": 400, "thorough": 4000}
+N = {"quick": 400, "thorough": 3000}
 GO_TIMEOUT = {"quick": 600, "thorough": 3000}
 RULE = ("eight case kinds, all running the real code of /repo on a fake host with a scripted message sender: "
         "(closest) the three table fields set as runCrawler sets them, 0-200 crawled peers with 0-4 real multiaddrs each out of a pool of 1-100 IP groups "
